@@ -32,7 +32,7 @@ func (c17) Info() core.Info {
 		Title: "Reported error positions lie inside the query and render with an aligned caret",
 		Level: "exploration",
 		Rule: "every single-token edit (delete, duplicate, replace by each of 26 alphabet tokens) at every token position of a corpus of valid statements of all kinds and of lengths 30/69/70/71/150 bytes (so that faults fall early and late, inside and outside the 70-character window), plus statements that fail at execution; each erroneous variant with leading blanks {0,1,3} x trailing blanks {0,2} x padding {0,7,12}. " +
-			"Oracle: Pos is -1 or 0 <= Pos < len(query); for errors from parsing / checking Pos is 0 or the start offset of a token (reference lexer of C16); after BindQuery the first line shows a stretch of the (trimmed) query that contains the offset and the caret of the second line stands, after the padding, under the character at that offset (at the end of the text for -1). Rendering must not panic. Non-trivial: an error with a position inside a query longer than the window or with leading blanks. Distinct: (query text, padding).",
+			"Oracle: Pos is -1 or 0 <= Pos < len(query); for errors from parsing / checking Pos is 0 or the start offset of a token (reference lexer of C16); after BindQuery the first line shows a stretch of the (trimmed) query that contains the offset and the caret of the second line stands, after the padding, under the character at that offset (at the end of the text for -1). Every error is bound and rendered twice (same text, same padding): both renderings must satisfy this and the position carried after binding must still be such an offset. Rendering must not panic. Non-trivial: an error with a position inside a query longer than the window or with leading blanks. Distinct: (query text, padding).",
 		Assumptions: []string{"errors that are not positional (no QueryBinder) are skipped", "the first line is printed after a prefix of `padding` characters, as in the README example"},
 	}
 }
@@ -226,46 +226,59 @@ func c17Judge(c *c17Case) (f *core.Failure, nontrivial bool, status string, eval
 		if !isQB {
 			continue
 		}
-		qb.BindQuery(q)
-		qb.SetPadding(c.Padding)
-		text, pan := renderErr(e.err)
-		evals++
-		if pan != "" {
-			return mk("caret", "render-panics", "a rendered message", fmt.Sprintf("Pos=%d: panic %s", pos, pan)), true, "", evals
-		}
-		lines := strings.Split(text, "\n")
-		if len(lines) < 3 {
-			return mk("caret", "render-shape", "query line, caret line, message line", strconv.Quote(text)), true, "", evals
-		}
-		line1, line2 := lines[0], lines[1]
-		caret := strings.IndexByte(line2, '^')
-		if caret < 0 || strings.TrimLeft(line2[:caret], " ") != "" {
-			return mk("caret", "no-caret", "spaces then ^", strconv.Quote(line2)), true, "", evals
-		}
-		body := line1
-		prefix := 0
-		if strings.HasPrefix(body, "... ") {
-			body = body[4:]
-			prefix = 4
-		}
-		body = strings.TrimSuffix(body, " ...")
-		p := len(tq)
-		if pos >= 0 {
-			p = pos - lead
-		}
-		col := caret - c.Padding - prefix
-		a := p - col
-		okAlign := p >= 0 && p <= len(tq) && col >= 0 && col <= len(body) && a >= 0 && a+len(body) <= len(tq) && tq[a:a+len(body)] == body
-		if okAlign && col == len(body) && p != len(tq) {
-			okAlign = false // the caret may stand after the window only when it marks the end of the text
-		}
-		if !okAlign {
-			want := "end of text"
-			if pos >= 0 && pos < len(q) {
-				want = fmt.Sprintf("%q at offset %d", q[pos], pos)
+		// bound (and rendered) twice: the error still carries an offset into the
+		// query it was bound to, and the caret still stands under that character
+		for round := 1; round <= 2; round++ {
+			qb.BindQuery(q)
+			qb.SetPadding(c.Padding)
+			if p2, _, ok2 := positional(e.err); ok2 && p2 != pos {
+				if p2 != -1 && (p2 < 0 || p2 >= len(q)) {
+					return mk("position-in-query", "position-outside-query-after-binding", fmt.Sprintf("-1 or 0 <= Pos < %d", len(q)), fmt.Sprintf("Pos=%d before binding, %d after binding #%d", pos, p2, round)), true, "", evals
+				}
+				if syntax && e.stage == "plan" && p2 >= 0 && !starts[p2] {
+					return mk("position-in-query", "position-not-at-a-token-after-binding", "0 or the start offset of a token", fmt.Sprintf("Pos=%d before binding, %d after binding #%d (%s)", pos, p2, round, msgOf())), true, "", evals
+				}
+				pos = p2
 			}
-			return mk("caret", "caret-misaligned", "line 1 shows a stretch of the query containing the offset and the caret stands under "+want+" (after the padding)",
-				fmt.Sprintf("Pos=%d rendered: %s", pos, strconv.Quote(lines[0]+"\n"+lines[1]))), true, "", evals
+			text, pan := renderErr(e.err)
+			evals++
+			if pan != "" {
+				return mk("caret", "render-panics", "a rendered message", fmt.Sprintf("Pos=%d: panic %s", pos, pan)), true, "", evals
+			}
+			lines := strings.Split(text, "\n")
+			if len(lines) < 3 {
+				return mk("caret", "render-shape", "query line, caret line, message line", strconv.Quote(text)), true, "", evals
+			}
+			line1, line2 := lines[0], lines[1]
+			caret := strings.IndexByte(line2, '^')
+			if caret < 0 || strings.TrimLeft(line2[:caret], " ") != "" {
+				return mk("caret", "no-caret", "spaces then ^", strconv.Quote(line2)), true, "", evals
+			}
+			body := line1
+			prefix := 0
+			if strings.HasPrefix(body, "... ") {
+				body = body[4:]
+				prefix = 4
+			}
+			body = strings.TrimSuffix(body, " ...")
+			p := len(tq)
+			if pos >= 0 {
+				p = pos - lead
+			}
+			col := caret - c.Padding - prefix
+			a := p - col
+			okAlign := p >= 0 && p <= len(tq) && col >= 0 && col <= len(body) && a >= 0 && a+len(body) <= len(tq) && tq[a:a+len(body)] == body
+			if okAlign && col == len(body) && p != len(tq) {
+				okAlign = false // the caret may stand after the window only when it marks the end of the text
+			}
+			if !okAlign {
+				want := "end of text"
+				if pos >= 0 && pos < len(q) {
+					want = fmt.Sprintf("%q at offset %d", q[pos], pos)
+				}
+				return mk("caret", "caret-misaligned", "line 1 shows a stretch of the query containing the offset and the caret stands under "+want+" (after the padding)",
+					fmt.Sprintf("Pos=%d rendered: %s", pos, strconv.Quote(lines[0]+"\n"+lines[1]))), true, "", evals
+			}
 		}
 		if lead > 0 || len(tq) > 70 {
 			nontrivial = true
